@@ -36,6 +36,7 @@ type CSes struct {
 type CIn struct {
 	Kind string `json:"kind"` // ses data bad eof
 	Ses  *CSes  `json:"ses,omitempty"`
+	Sub  string `json:"sub,omitempty"` // data: "" a message, ping a GET /ping request command, not a notification, resp a response command
 }
 
 func (c CIn) Coq() string {
@@ -97,7 +98,7 @@ type AuthRow struct {
 	Scheme string `json:"scheme"`
 	Cred   *int   `json:"cred"`
 	Round  int    `json:"round"`
-	Res    string `json:"res"` // role unknown round:<n> err
+	Res    string `json:"res"` // role role+rt:<n> unknown empty round:<n> eround:<n> err
 }
 type RegRow struct {
 	From int    `json:"from"`
@@ -116,14 +117,22 @@ func (o *SOracle) coqAuth() string {
 		if r.Cred != nil {
 			cred = coqfmt.Some(coqfmt.Nat(*r.Cred))
 		}
-		res := "AUnknown"
+		// the callback's result as it is: role field (0 unset, 1 unknown, 2 a domain role) and round-trip data;
+		// the model's classify decides what it means
+		res := "(classify 1 None)"
 		switch {
 		case r.Res == "role":
-			res = "ARole"
+			res = "(classify 2 None)"
+		case strings.HasPrefix(r.Res, "role+rt:"):
+			res = "(classify 2 (Some " + r.Res[8:] + "))"
+		case r.Res == "empty":
+			res = "(classify 0 None)"
 		case r.Res == "err":
 			res = "AErr"
 		case strings.HasPrefix(r.Res, "round:"):
-			res = "(ARound " + r.Res[6:] + ")"
+			res = "(classify 1 (Some " + r.Res[6:] + "))"
+		case strings.HasPrefix(r.Res, "eround:"):
+			res = "(classify 0 (Some " + r.Res[7:] + "))"
 		}
 		rows = append(rows, coqfmt.Tuple(coqfmt.Nat(r.From), coqfmt.Str(r.Scheme), cred, coqfmt.Nat(r.Round), res))
 	}
@@ -387,10 +396,16 @@ func newScriptServer(conf *SConf, oracle *SOracle) *scriptServer {
 				switch {
 				case r.Res == "role":
 					return lime.MemberAuthenticationResult(), nil
+				case strings.HasPrefix(r.Res, "role+rt:"):
+					return &lime.AuthenticationResult{Role: lime.DomainRoleAuthority, RoundTrip: &lime.PlainAuthentication{Password: "rt" + r.Res[8:]}}, nil
+				case r.Res == "empty":
+					return &lime.AuthenticationResult{}, nil
 				case r.Res == "err":
 					return nil, errors.New("scripted authenticate error")
 				case strings.HasPrefix(r.Res, "round:"):
 					return &lime.AuthenticationResult{Role: lime.DomainRoleUnknown, RoundTrip: &lime.PlainAuthentication{Password: "rt" + r.Res[6:]}}, nil
+				case strings.HasPrefix(r.Res, "eround:"):
+					return &lime.AuthenticationResult{RoundTrip: &lime.PlainAuthentication{Password: "rt" + r.Res[7:]}}, nil
 				}
 				return lime.UnknownAuthenticationResult(), nil
 			}
@@ -583,6 +598,14 @@ func (c *rawClient) project(raw map[string]json.RawMessage) SSes {
 func (c *rawClient) line(in CIn) []byte {
 	switch in.Kind {
 	case "data":
+		switch in.Sub {
+		case "ping":
+			return []byte(`{"id":"d2","method":"get","uri":"/ping","to":"postmaster@verif.test/srv"}` + "\n")
+		case "not":
+			return []byte(`{"id":"d3","event":"received","to":"postmaster@verif.test/srv"}` + "\n")
+		case "resp":
+			return []byte(`{"id":"d4","method":"get","status":"success","to":"postmaster@verif.test/srv"}` + "\n")
+		}
 		return []byte(`{"id":"d1","type":"text/plain","content":"hello","to":"postmaster@verif.test/srv"}` + "\n")
 	case "bad":
 		return []byte(`{"state":"bogus-state","id":5}` + "\n")
